@@ -873,7 +873,9 @@ func (fr *Frame) makeSlice(i *ssa.MakeSlice) {
 	x := fr.x
 	ln := fr.val(i.Len).Term
 	cp := fr.val(i.Cap).Term
-	fr.oblige("safe:makelen", "", sAnd(sLe("0", ln), sLe(ln, cp), sLe(cp, maxSliceLen)), "")
+	fr.oblige("safe:makelen", "", sAnd(sLe("0", ln), sLe(ln, cp)), "")
+	// a successful allocation is within the physical bound (T4/T5: memory exhaustion is not modelled)
+	fr.assume(sLe(cp, maxSliceLen))
 	ref := fr.freshRef("make")
 	et := elemType(i.Type())
 	for _, lf := range leavesOf(et) {
